@@ -38,6 +38,23 @@ def gen_scenario(rng):
                 last["just"] = True
             elif r2 < 0.9:
                 last["keep"] = True
+    elif rng.random() < 0.2:
+        # --keep against a dependency asked for by tag, by bare name or by expression, the product being set up
+        # at a version that has not got the tag
+        names = sorted(w["products"])
+        lo, top = names[0], names[-1]
+        if len(w["products"][lo]) < 2:
+            extra = [v for v in S.VERSIONS if v not in w["products"][lo]][0]
+            w["products"][lo][extra] = ["envPrepend(PATH, ${PRODUCT_DIR}/bin)", "envSet(%s_HOME, ${PRODUCT_DIR}/home)" % lo.upper()]
+        vs = sorted(w["products"][lo])
+        w["current"][lo] = rng.choice(vs)
+        other = rng.choice([v for v in vs if v != w["current"][lo]])
+        line = rng.choice(["setupRequired(%s -t current)", "setupOptional(%s -t current)", "setupRequired(%s)",
+                           "setupRequired(%s >= 1.0)"]) % lo
+        for v in w["products"][top]:
+            w["products"][top][v] = [l for l in w["products"][top][v] if "(%s" % lo not in l] + [line]
+        reqs = [{"name": lo, "fwd": True, "version": other}]
+        last = {"name": top, "fwd": True, "keep": True}
     env0 = {"PATH": "/usr/bin:/bin"}
     if rng.random() < 0.3:
         env0["XLIST"] = "/pre/x;/pre/y"
